@@ -51,6 +51,6 @@ Emit == PrintT("CASE " \o ToJson([c |-> cs, out |-> out]))
 
 MalformedCompact == {"twoParts", "fourParts", "badB64Header", "badB64Payload", "badB64Signature", "headerNotJson", "headerArray", "headerNoAlg",
                      "b64NotBoolean", "emptyPayload", "emptySignature", "jsonSerialization", "emptyString", "onlyDots", "headerNull"}
-MalformedJWK == {"unknownKty", "unknownCrv", "missingX", "shortX", "longX", "offCurve", "badB64X", "ktyCrvMismatch", "emptyFields", "missingY", "yOnOKP", "zeroPoint"}
+MalformedJWK == {"unknownKty", "unknownCrv", "missingX", "shortX", "longX", "zeroPaddedX", "zeroPaddedY", "strippedY", "offCurve", "badB64X", "ktyCrvMismatch", "emptyFields", "missingY", "yOnOKP", "zeroPoint"}
 ASSUME PrintT("MALFORMED " \o ToJson([compact |-> MalformedCompact, jwk |-> MalformedJWK]))
 =============================================================================
